@@ -25,8 +25,6 @@ theorem testBit_packLE (a : Bits) (i : Nat) : (packLE a).testBit i = getBit a i 
       congr 1
       cases x <;> simp [packLE] <;> omega
 
-theorem getBit_fun (a : Bits) : getBit a = (packLE a).testBit :=
-  funext (fun i => (testBit_packLE a i).symm)
 
 theorem eq_of_packLE_eq (a b : Bits) (hl : a.length = b.length) (h : packLE a = packLE b) :
     a = b := by
@@ -47,13 +45,54 @@ theorem getBit_set (a : Bits) (i j : Nat) (v : Bool) :
     · simp [hi]
   · simp [hij]
 
+/-- force the kernel to evaluate `x` to a literal before continuing (it reduces lazily; without this
+the nested accumulators of the loops below are re-evaluated at every use) -/
+def forceNat {β : Type} (x : Nat) (k : Nat → β) : β :=
+  match x with
+  | 0 => k 0
+  | n + 1 => k (n + 1)
+
+@[simp] theorem forceNat_eq {β : Type} (x : Nat) (k : Nat → β) : forceNat x k = k x := by
+  cases x <;> rfl
+
+/-- `Nat.testBit` written with the kernel-accelerated primitives only -/
+def tb (x i : Nat) : Bool := Nat.beq (Nat.land 1 (Nat.shiftRight x i)) 1
+
+theorem tb_eq (x i : Nat) : tb x i = x.testBit i := by
+  have h1 : Nat.land 1 (Nat.shiftRight x i) = (x >>> i) % 2 := Nat.one_and_eq_mod_two _
+  unfold tb Nat.testBit
+  rw [h1]
+  have h2 : (1 &&& x >>> i) = (x >>> i) % 2 := Nat.one_and_eq_mod_two _
+  rw [h2]
+  rcases Nat.mod_two_eq_zero_or_one (x >>> i) with h | h <;> rw [h] <;> rfl
+
+theorem tb_fun (x : Nat) : tb x = x.testBit := funext (tb_eq x)
+
+theorem getBit_fun (a : Bits) : getBit a = tb (packLE a) :=
+  funext (fun i => by rw [tb_eq, testBit_packLE])
+
 /-- replace bit `i` of `x` by `v` (nothing happens at or beyond `len`, like `List.set`) -/
 def setBitN (len x i : Nat) (v : Bool) : Nat :=
-  if i < len then (if x.testBit i == v then x else x ^^^ (1 <<< i)) else x
+  bif Nat.blt i len && Bool.xor (tb x i) v then Nat.xor x (Nat.shiftLeft 1 i) else x
+
+theorem setBitN_eq (len x i : Nat) (v : Bool) :
+    setBitN len x i v
+      = if i < len then (if x.testBit i == v then x else x ^^^ (1 <<< i)) else x := by
+  unfold setBitN
+  rw [tb_eq]
+  by_cases hi : i < len
+  · have : Nat.blt i len = true := by simp [Nat.blt]; omega
+    simp only [this, hi, Bool.true_and, if_true]
+    cases x.testBit i <;> cases v <;> rfl
+  · have : Nat.blt i len = false := by
+      cases h : Nat.blt i len
+      · rfl
+      · exfalso; apply hi; simp [Nat.blt] at h; omega
+    simp [this, hi]
 
 theorem packLE_set (a : Bits) (i : Nat) (v : Bool) :
     packLE (a.set i v) = setBitN a.length (packLE a) i v := by
-  unfold setBitN
+  rw [setBitN_eq]
   by_cases hi : i < a.length
   · simp only [hi, if_true]
     apply Nat.eq_of_testBit_eq
@@ -86,8 +125,20 @@ theorem putLoop_eq_F (pairs : List (Nat × Nat)) (src out : Bits) :
     putLoop pairs src out = putLoopF (getBit src) pairs out := rfl
 
 /-- the same loop on a packed destination of `len` bits -/
-def putLoopN (get : Nat → Bool) (pairs : List (Nat × Nat)) (len : Nat) (out : Nat) : Nat :=
-  pairs.foldl (fun o p => setBitN len o p.1 (get p.2)) out
+def putLoopN (get : Nat → Bool) : List (Nat × Nat) → Nat → Nat → Nat
+  | [], _, out => out
+  | p :: ps, len, out => forceNat (setBitN len out p.1 (get p.2)) (fun o => putLoopN get ps len o)
+
+/-- strict left fold over packed states -/
+def foldlS {ι : Type} (f : Nat → ι → Nat) : Nat → List ι → Nat
+  | acc, [] => acc
+  | acc, i :: is => forceNat (f acc i) (fun v => foldlS f v is)
+
+theorem foldlS_eq {ι : Type} (f : Nat → ι → Nat) (acc : Nat) (l : List ι) :
+    foldlS f acc l = l.foldl f acc := by
+  induction l generalizing acc with
+  | nil => rfl
+  | cons i is ih => simp [foldlS, ih]
 
 theorem packLE_putLoopF (get : Nat → Bool) (pairs : List (Nat × Nat)) (out : Bits) :
     packLE (putLoopF get pairs out) = putLoopN get pairs out.length (packLE out) := by
@@ -95,10 +146,10 @@ theorem packLE_putLoopF (get : Nat → Bool) (pairs : List (Nat × Nat)) (out : 
   | nil => simp [putLoopF, putLoopN]
   | cons p ps ih =>
     have := ih (out.set p.1 (get p.2))
-    simp only [putLoopF, putLoopN, List.length_set] at this
-    simp only [putLoopF, putLoopN, List.foldl_cons, this, packLE_set]
+    simp only [putLoopF, List.length_set] at this
+    simp only [putLoopF, putLoopN, List.foldl_cons, this, packLE_set, forceNat_eq]
 
-theorem gather_eq_map (tbl : List Nat) (a : Bits) : gather tbl a = tbl.map (packLE a).testBit := by
+theorem gather_eq_map (tbl : List Nat) (a : Bits) : gather tbl a = tbl.map (tb (packLE a)) := by
   simp [gather, getBit_fun]
 
 /-- `Code.gen` as the XOR of the generator rows selected by the message (much cheaper in the kernel) -/
@@ -117,44 +168,44 @@ variable (V : VCode)
 /-! ### the mirror -/
 
 def fillTableN (mN : Nat) : Nat :=
-  let bi := putLoopN mN.testBit (V.T.deinterleaveInfo.map (fun p => (p.2, p.1))) V.n 0
-  putLoopN bi.testBit (V.T.ii.map (fun e => (V.cell (e.row - 1) e.col, e.il))) (V.R * V.W) 0
+  forceNat (putLoopN (tb mN) (V.T.deinterleaveInfo.map (fun p => (p.2, p.1))) V.n 0) fun bi =>
+  putLoopN (tb bi) (V.T.ii.map (fun e => (V.cell (e.row - 1) e.col, e.il))) (V.R * V.W) 0
 
 def placeCsN (csN tN : Nat) : Nat :=
-  putLoopN csN.testBit ((List.range V.csCells.length).map
+  putLoopN (tb csN) ((List.range V.csCells.length).map
     (fun j => (V.cell (V.csCells.getD j (0, 0)).1 (V.csCells.getD j (0, 0)).2, j))) (V.R * V.W) tN
 
 def rowStepN (g : Bits → Bits) (r : Nat) (tN : Nat) : Nat :=
-  let word := g (((List.range V.H.k).map (fun c => V.cell r c)).map tN.testBit)
+  let word := g (((List.range V.H.k).map (fun c => V.cell r c)).map (tb tN))
   putLoopN (getBit word) ((List.range V.W).map (fun c => (V.cell r c, c))) (V.R * V.W) tN
 
 def colStepN (odd : Bool) (c : Nat) (tN : Nat) : Nat :=
   let rows := if V.colFull then V.R else V.R - 1
-  let col := ((List.range rows).map (fun r => V.cell r c)).map tN.testBit
+  let col := ((List.range rows).map (fun r => V.cell r c)).map (tb tN)
   putLoopN (getBit (V.setParityRaw col odd)) ((List.range V.R).map (fun r => (V.cell r c, r)))
     (V.R * V.W) tN
 
 def readOutN (tN : Nat) : Nat :=
-  putLoopN tN.testBit (V.T.ii.map (fun e => (e.il, V.cell (e.row - 1) e.col))) V.n 0
+  putLoopN (tb tN) (V.T.ii.map (fun e => (e.il, V.cell (e.row - 1) e.col))) V.n 0
 
 def encCoreN (g : Bits → Bits) (mN csN : Nat) (odd : Bool) : Nat :=
-  let t := V.fillTableN mN
-  let t := V.placeCsN csN t
-  let t := (List.range V.hrows).foldl (fun t r => V.rowStepN g r t) t
-  let t := (List.range V.W).foldl (fun t c => V.colStepN odd c t) t
+  forceNat (V.fillTableN mN) fun t =>
+  forceNat (V.placeCsN csN t) fun t =>
+  forceNat (foldlS (fun t r => V.rowStepN g r t) t (List.range V.hrows)) fun t =>
+  forceNat (foldlS (fun t c => V.colStepN odd c t) t (List.range V.W)) fun t =>
   V.readOutN t
 
 def dataRawN (eN : Nat) : Nat :=
-  putLoopN eN.testBit V.T.deinterleaveInfo V.T.deinterleaveInfo.length 0
+  putLoopN (tb eN) V.T.deinterleaveInfo V.T.deinterleaveInfo.length 0
 
 def csRawN (eN : Nat) : Nat :=
-  putLoopN eN.testBit V.T.deinterleaveChecksum V.T.deinterleaveChecksum.length 0
+  putLoopN (tb eN) V.T.deinterleaveChecksum V.T.deinterleaveChecksum.length 0
 
 def allRawN (eN : Nat) : Nat :=
-  putLoopN eN.testBit V.T.fullDeinterleaving V.T.fullDeinterleaving.length 0
+  putLoopN (tb eN) V.T.fullDeinterleaving V.T.fullDeinterleaving.length 0
 
 def fromAllN (wN : Nat) : Nat :=
-  V.dataRawN (putLoopN wN.testBit (V.T.ii.map (fun e => (e.key, e.il))) V.n 0)
+  forceNat (putLoopN (tb wN) (V.T.ii.map (fun e => (e.key, e.il))) V.n 0) fun i => V.dataRawN i
 
 /-! ### bridging lemmas -/
 
@@ -172,7 +223,7 @@ theorem colStep_length (o : Bool) (c : Nat) (t : Bits) : (V.colStep o c t).lengt
 
 theorem packLE_fillTable (m : Bits) : packLE (V.fillTable m) = V.fillTableN (packLE m) := by
   simp only [fillTable, fillTableN, putLoop_eq_F, getBit_fun, packLE_putLoopF, zeros_length,
-    packLE_zeros]
+    packLE_zeros, forceNat_eq]
 
 theorem packLE_placeCs (cs t : Bits) (ht : t.length = V.R * V.W) :
     packLE (V.placeCs cs t) = V.placeCsN (packLE cs) (packLE t) := by
@@ -208,6 +259,7 @@ theorem packLE_foldl {ι : Type} (l : List ι) (step : ι → Bits → Bits) (st
 theorem packLE_encCore (g : Bits → Bits) (hg : ∀ m, g m = V.H.gen m) (x : Bits) (o : Bool) :
     packLE (V.encCore x o) = V.encCoreN g (packLE (x.take V.k)) (packLE (x.drop V.k)) o := by
   unfold encCore encCoreN
+  simp only [forceNat_eq, foldlS_eq]
   have h0 : (V.placeCs (x.drop V.k) (V.fillTable (x.take V.k))).length = V.R * V.W := by
     rw [placeCs_length, fillTable_length]
   have h1 := packLE_foldl (List.range V.hrows) (fun r t => V.rowStep r t)
@@ -232,7 +284,7 @@ theorem packLE_allRaw (e : Bits) : packLE (V.allRaw e) = V.allRawN (packLE e) :=
 
 theorem packLE_fromAll (w : Bits) : packLE (V.fromAll w) = V.fromAllN (packLE w) := by
   simp only [fromAll, fromAllN, packLE_dataRaw, putLoop_eq_F, getBit_fun, packLE_putLoopF,
-    zeros_length, packLE_zeros]
+    zeros_length, packLE_zeros, forceNat_eq]
 
 /-! ### the kernel-evaluated check of one input word -/
 
@@ -243,24 +295,25 @@ def chkE (g : Bits → Bits) (y : Bits) (eN : Nat) : Bool :=
   && (V.csRawN eN == packLE ((y.drop V.k).take V.c))
   && (V.T.deinterleaveChecksum.length == ((y.drop V.k).take V.c).length)
   && (List.range V.hrows).all (fun r =>
-        let row := ((List.range V.W).map (V.cellIl r)).map eN.testBit
+        let row := ((List.range V.W).map (V.cellIl r)).map (tb eN)
         row == g (row.take V.H.k))
   && (List.range V.W).all (fun c =>
-        xorAll (((List.range V.R).map (fun r => V.cellIl r c)).map eN.testBit)
+        xorAll (((List.range V.R).map (fun r => V.cellIl r c)).map (tb eN))
           == getBit y (V.k + V.c))
-  && (V.fromAllN (V.allRawN eN) == packLE (y.take V.k))
+  && (forceNat (V.allRawN eN) V.fromAllN == packLE (y.take V.k))
 
 def chkN (g : Bits → Bits) (y : Bits) : Bool :=
   let x := y.take (V.k + V.c)
-  V.chkE g y (V.encCoreN g (packLE (x.take V.k)) (packLE (x.drop V.k)) (getBit y (V.k + V.c)))
+  forceNat (V.encCoreN g (packLE (x.take V.k)) (packLE (x.drop V.k)) (getBit y (V.k + V.c)))
+    (V.chkE g y)
 
 theorem chkN_sound (g : Bits → Bits) (hg : ∀ m, g m = V.H.gen m) (y : Bits)
     (h : V.chkN g y = true) : V.Facts y := by
   have h' : V.chkE g y (packLE (V.F y)) = true := by
-    rw [F, V.packLE_encCore g hg]; exact h
+    rw [F, V.packLE_encCore g hg]; simpa only [chkN, forceNat_eq] using h
   clear h
   have h := h'
-  simp only [chkE, Bool.and_eq_true, beq_iff_eq, List.all_eq_true, List.mem_range] at h
+  simp only [chkE, forceNat_eq, Bool.and_eq_true, beq_iff_eq, List.all_eq_true, List.mem_range] at h
   obtain ⟨⟨⟨⟨⟨⟨h1, h1l⟩, h2⟩, h2l⟩, h3⟩, h4⟩, h5⟩ := h
   refine ⟨?_, ?_, ?_, ?_, ?_⟩
   · apply eq_of_packLE_eq
